@@ -27,6 +27,14 @@ def previousOk (rounds : List Round) (n : Nat) (res : Option Round) : Bool :=
   | r :: _ => res == some r
   | [] => res == none
 
+/-- accepted submissions `ps` (oldest first, `(price, timestamp)`) are recorded as exactly that many NEW rounds
+    carrying exactly the submitted values, on top of the unchanged earlier rounds — "latest and n-rounds-back
+    queries return exactly the submitted values" is judged against what was SUBMITTED, not against whatever the
+    contract chose to store -/
+def recordedOk (pre post : List Round) (ps : List (Nat × Nat)) : Bool :=
+  (subs post).drop ps.length == subs pre
+    && ((subs post).take ps.length).map (fun r => (r.price, r.timestamp)) == ps.reverse
+
 def inEffect (baseTs : Nat) : List Round → List Round
   | [] => []
   | r :: rest => if r.timestamp ≤ baseTs then [r] else r :: inEffect baseTs rest
